@@ -8,7 +8,7 @@
     - every other handled mnemonic reaches a codegen case or the one-byte table.
     If the source changes any of these sets the theorem no longer checks. *)
 From Coq Require Import List ZArith String Bool.
-From Gosk Require Import Base.Bytes Model.Ast Model.Eval Model.Asm Generated.Tables.
+From Gosk Require Import Base.Bytes Model.Ast Model.Eval Model.Asm Generated.Tables Lemmas.CodegenLift.
 Import ListNotations.
 Local Open Scope string_scope.
 
@@ -58,3 +58,22 @@ Proof.
   destruct (if far_dt_ok dt then seg_num l else None); destruct (seg_num r0); split; reflexivity.
 Qed.
 Print Assumptions C07_far_operand_only_on_jmp.
+
+(** program level: the final "diagnosed" flag of codegen cannot miss a statement.  If an ocode is diagnosed wherever it
+    stands, then after ANY prefix and before ANY suffix of ocodes the whole emission ends with the flag raised (or does
+    not end normally at all): later statements cannot clear it. *)
+Theorem C07_diag_reaches_end : forall E m st dol o,
+  (forall len, exists b, gen_ocode E m st dol len o = BytesDiag b) ->
+  forall os1 os2 acc d bs d', codegen E m st dol acc d (os1 ++ o :: os2) = GOk bs d' -> d' = true.
+Proof. exact codegen_diag_reaches_end. Qed.
+Print Assumptions C07_diag_reaches_end.
+
+(* instances reachable from source text: a branch whose operand is neither a label nor a number (JText), a far jump with
+   unencodable sides, RESB with a negative count, INT with a vector outside 0..255 - wherever they stand in the program.
+   NOT an instance: a branch to a label defined nowhere; pass 1 enters such a name with value 0 and codegen finds it
+   (known finding C07-silent-table, "JMP nosuchname"). *)
+Theorem C07_unencodable_statements_flagged : forall E m st dol o,
+  (exists md name, o = OJcc md name JText) \/ (exists n : Z, (n < 0)%Z /\ o = OResb n) \/ (exists z : Z, ~ (0 <= z <= 255)%Z /\ o = OInt (Some z)) \/ o = OJmpFarText ->
+  forall os1 os2 acc d bs d', codegen E m st dol acc d (os1 ++ o :: os2) = GOk bs d' -> d' = true.
+Proof. exact unencodable_statements_flagged. Qed.
+Print Assumptions C07_unencodable_statements_flagged.
